@@ -510,6 +510,7 @@ pub fn rows() -> Vec<Row> {
     r.push(row!(BI, "Buildinfo", "set_build_tainted_by", "Build-Tainted-By", G::Words, false, |v, a| v.set_build_tainted_by(a.l()), |v| v.build_tainted_by().map(|x: Vec<String>| jl(&x)), |a| Some(jl(&a.l())), |a| Some(a.l().join(" ")), ws_list));
     r.push(str_row!(BI, "Buildinfo", "Format", G::Word, set_format, format));
     r.push(str_row!(BI, "Buildinfo", "Build-Path", G::Word, set_build_path, build_path));
+    r.push(rel_val_row!(BI, "Buildinfo", "Installed-Build-Depends", set_installed_build_depends, installed_build_depends));
     r.push(row!(
         BI,
         "Buildinfo",
@@ -544,6 +545,8 @@ pub fn rows() -> Vec<Row> {
     r.push(str_row!(CH, "copyright::Header", "Upstream-Name", G::Line, set_upstream_name, upstream_name));
     r.push(str_row!(CH, "copyright::Header", "Upstream-Contact", G::Line, set_upstream_contact, upstream_contact));
     r.push(str_row!(CH, "copyright::Header", "Source", G::Url, set_source, source));
+    // Header::fix: normalises the format string (trailing slash, https), nothing else moves
+    r.push(row!(CH, "copyright::Header", "fix", "Format", G::Word, false, |v, _a| v.fix(), |v| v.format_string(), |_a| None, |_a| Some(String::new()), raw_id));
     r.push(row!(
         CH,
         "copyright::Header",
@@ -687,6 +690,18 @@ pub fn rows() -> Vec<Row> {
     ));
     for row in r.iter_mut() {
         match (row.view, row.accessor) {
+            ("copyright::Header", "fix") => {
+                row.merge = Some(|old, _a| {
+                    let mut f = old.unwrap_or("").to_string();
+                    if !f.ends_with('/') {
+                        f.push('/');
+                    }
+                    if let Some(rest) = f.strip_prefix("http:") {
+                        f = format!("https:{rest}");
+                    }
+                    f
+                });
+            }
             ("dep3::PatchHeader", "set_author") => row.alias = Some("From"),
             ("dep3::PatchHeader", "set_description") => {
                 row.alias = Some("Subject");
@@ -708,6 +723,23 @@ pub fn rows() -> Vec<Row> {
         }
     }
     r
+}
+
+/// Reference matcher for copyright Files patterns: `*` any run of characters (slashes included), `?` one
+/// character, backslash takes the next character literally.
+fn ref_glob(pat: &str, name: &str) -> bool {
+    fn m(p: &[char], n: &[char]) -> bool {
+        match p.first() {
+            None => n.is_empty(),
+            Some('*') => (0..=n.len()).any(|i| m(&p[1..], &n[i..])),
+            Some('?') => !n.is_empty() && m(&p[1..], &n[1..]),
+            Some('\\') if p.len() >= 2 => !n.is_empty() && n[0] == p[1] && m(&p[2..], &n[1..]),
+            Some(c) => !n.is_empty() && n[0] == *c && m(&p[1..], &n[1..]),
+        }
+    }
+    let p: Vec<char> = pat.chars().collect();
+    let n: Vec<char> = name.chars().collect();
+    m(&p, &n)
 }
 
 /// Reference reading of a Release date: RFC 2822 style, the zone may be spelled "UTC".
@@ -948,6 +980,19 @@ fn check_changes(c: &Case, obs: &mut Obs) -> Result<(), Violation> {
     same!("checksums_sha1", ch.checksums_sha1().map(|x| x.iter().map(|y| y.to_string()).collect::<Vec<_>>()), raw("Checksums-Sha1").map(triples));
     same!("checksums_sha256", ch.checksums_sha256().map(|x| x.iter().map(|y| y.to_string()).collect::<Vec<_>>()), raw("Checksums-Sha256").map(triples));
     same!("files", ch.files().map(|x| x.iter().map(|y| y.to_string()).collect::<Vec<_>>()), raw("Files").map(triples));
+    // derived getter: pool/<component>/<prefix>/<source>, component from the first file's section, prefix = first
+    // letter of the source name, or "lib" plus the next letter for library packages (the archive's pool layout)
+    if let (Some(files), Some(src)) = (raw("Files"), raw("Source")) {
+        if let Some(section) = files.lines().next().and_then(|l| l.split_whitespace().nth(2)) {
+            if src.is_ascii() && !src.is_empty() {
+                let component = section.split_once('/').map(|x| x.0).unwrap_or("main");
+                let prefix = if src.starts_with("lib") && src.len() > 3 { src[..4].to_string() } else { src[..1].to_lowercase() };
+                same!("get_pool_path", ch.get_pool_path(), Some(format!("pool/{component}/{prefix}/{src}")));
+            }
+        }
+    } else {
+        same!("get_pool_path", ch.get_pool_path(), None::<String>);
+    }
     // the one setter
     for ev in &c.events {
         if let Ev::Set { arg, .. } = ev {
@@ -1246,6 +1291,66 @@ impl Scenario for C15 {
                 }
             }
         }
+        if let Doc::Cr(cr) = &l.doc {
+            let files_paras: Vec<&Vec<(String, String)>> = l.model.iter().filter(|p| p.iter().any(|e| e.0 == "Files")).collect();
+            // licence paragraphs and the lookups built on them
+            let lic_paras: Vec<&Vec<(String, String)>> = l.model.iter().filter(|p| !p.iter().any(|e| e.0 == "Files") && p.iter().any(|e| e.0 == "License")).collect();
+            let got_n = cr.iter_licenses().count();
+            if got_n != lic_paras.len() {
+                return Err(v("view-lookup", "copyright::Copyright.iter_licenses", "raw-text", format!("iter_licenses() yields {got_n} paragraphs, the text has {} paragraphs with License and without Files", lic_paras.len())));
+            }
+            let name_of = |p: &Vec<(String, String)>| p.iter().find(|e| e.0 == "License").map(|e| e.1.split('\n').next().unwrap_or("").to_string());
+            for p in &lic_paras {
+                if let Some(name) = name_of(p) {
+                    if name.is_empty() {
+                        continue;
+                    }
+                    let first = lic_paras.iter().find(|q| name_of(q).as_deref() == Some(name.as_str())).unwrap();
+                    let raw = first.iter().find(|e| e.0 == "License").map(|e| e.1.clone()).unwrap_or_default();
+                    let want = match raw.split_once('\n') {
+                        None => format!("Name({:?})", raw),
+                        Some((n, t)) => format!("Named({:?}, {:?})", n, t),
+                    };
+                    let got = cr.find_license_by_name(&name).map(|x| format!("{:?}", x));
+                    if got.as_deref() != Some(want.as_str()) {
+                        return Err(v("view-lookup", "copyright::Copyright.find_license_by_name", "raw-text", format!("find_license_by_name({name:?}) = {:?}, the first licence paragraph of that name reads {want}", got)));
+                    }
+                }
+            }
+            // files paragraph responsible for a file name: the last one with a matching pattern
+            for fname in ["debian/rules", "src/main.c", "x/y/z", "README", "foo*", "aXb"] {
+                let want_idx = files_paras.iter().enumerate().filter(|(_, p)| p.iter().find(|e| e.0 == "Files").map(|e| e.1.split_whitespace().any(|g| ref_glob(g, fname))).unwrap_or(false)).map(|x| x.0).last();
+                let got = cr.find_files(std::path::Path::new(fname)).map(|fp| fp.files());
+                let want = want_idx.map(|i| files_paras[i].iter().find(|e| e.0 == "Files").map(|e| e.1.split_whitespace().map(|x| x.to_string()).collect::<Vec<_>>()).unwrap_or_default());
+                if got != want {
+                    return Err(v("view-lookup", "copyright::Copyright.find_files", "raw-text", format!("find_files({fname:?}) gives the paragraph with Files {:?}, the last matching paragraph has {:?}", got, want)));
+                }
+            }
+            obs.count("op.getter_on_raw_text");
+        }
+        if c.kind == "dep3" {
+            if let (Some((_, AnyView::D3(h))), Some(p0)) = (l.views.get(&0), l.model.first()) {
+                probe::at("dep3 bug getters");
+                obs.prestate = "raw-text".into();
+                let want: Vec<(Option<String>, String)> = p0.iter().filter_map(|(k, val)| if k == "Bug" { Some((None, val.clone())) } else { k.strip_prefix("Bug-").map(|vn| (Some(vn.to_string()), val.clone())) }).collect();
+                let got: Vec<(Option<String>, String)> = h.bugs().collect();
+                if got != want {
+                    return Err(v("getter-on-raw-text", "dep3::PatchHeader.bugs", "raw-text", format!("bugs() = {:?}, the Bug / Bug-<vendor> fields read {:?}", got, want)));
+                }
+                for vendor in ["Debian", "Ubuntu", "debian"] {
+                    let wantv: Vec<String> = want.iter().filter(|x| x.0.as_deref() == Some(vendor)).map(|x| x.1.clone()).collect();
+                    let gotv: Vec<String> = h.vendor_bugs(vendor).collect();
+                    if gotv != wantv {
+                        return Err(v("getter-on-raw-text", "dep3::PatchHeader.vendor_bugs", "raw-text", format!("vendor_bugs({vendor:?}) = {:?}, expected {:?}", gotv, wantv)));
+                    }
+                }
+                let wantr: Vec<String> = p0.iter().filter(|e| e.0 == "Reviewed-By").map(|e| e.1.clone()).collect();
+                if h.reviewed_by() != wantr {
+                    return Err(v("getter-on-raw-text", "dep3::PatchHeader.reviewed_by", "raw-text", format!("reviewed_by() = {:?}, the Reviewed-By fields read {:?}", h.reviewed_by(), wantr)));
+                }
+                obs.count("op.getter_on_raw_text");
+            }
+        }
         let mut sets_per_para: BTreeMap<usize, usize> = BTreeMap::new();
         let mut interesting = false;
         let mut restarted_after_set = false;
@@ -1467,7 +1572,7 @@ impl Scenario for C15 {
                         obs.event(&after);
                         // getter through every live view of this paragraph, and through a fresh one
                         let _ = &merged_value;
-                        let want = (rowdef.expect)(arg);
+                        let want = if rowdef.accessor == "fix" { merged_value.clone() } else { (rowdef.expect)(arg) };
                         let want = if rowdef.gen == G::Bool && rowdef.clears && !arg.b() { Some("false".to_string()) } else { want };
                         let fresh = make_view(&l, &c.kind, para);
                         let mut all: Vec<(String, &AnyView)> = l.views.iter().filter(|(_, (p, _))| *p == para).map(|(id, (_, vw))| (format!("view {id}"), vw)).collect();
